@@ -5,6 +5,12 @@ Correspondence: histories of `Archive.add` (real `Individual`s, `costs_signed` s
 are run on the implementation with `ParetoDominance` and `EpsilonDominance`; after every operation the
 contents (ids renumbered per case, order included; read through iteration, len() and indexing) and the
 return value are compared with Run/C04Run.v (binary64 instance of Model/Archive.v, evaluated by vm_compute).
+The individuals of a history carry design vectors; in about a third of the histories several of them share
+one (exactly equal, equal within the 1e-10 of Individual.__eq__, just outside it; the same object offered
+twice; Individual.copy() of an earlier one) while their costs differ or coincide in every combination: the
+archive must go by object identity and costs, never by Individual.__eq__ / __hash__ (a noisy problem evaluated
+twice at one design point gives two members that are `==` and mutually non-dominated).  The model's add works
+on identities + costs only; its remove uses the vector equality of C20 (Model/IndividualEq.v), as list.remove does.
 Direct oracle (independent of the model, brute force from the textbook definition): after every prefix of
 additions the archive is the set of maximal offered vectors, one representative each; return value = inserted;
 permuted histories give the same cost set; truncate keeps the members with the largest feature.
@@ -31,7 +37,8 @@ TRUSTED = [
     "every pow call observed in the implementation run is checked to be an entry of those tapes",
     "Python's sorted() is a stable sort by `<` on the feature values (modelled by Base/StableSort.v: for a total preorder the stable result is unique)",
     "feasibility markers modelled as integers (bool/int as produced by artap)",
-    "Individual.__eq__ (used by Archive.remove) is identity on the individuals of a case (the harness gives them distinct vectors; __eq__ itself is C20)",
+    "Individual.__eq__ (used only by Archive.remove -> list.remove) is modelled by C20's vector equality Model/IndividualEq.v item_eq "
+    "(same object, or every coordinate within 1e-10), computed in Coq from the design vectors of the case; all vectors of a case have the same length",
 ]
 ASSUMPTIONS = [
     "cost and feature values are non-NaN binary64 floats; all offered vectors have the same number of objectives",
@@ -54,6 +61,9 @@ ADJ = [1.0, math.nextafter(1.0, 2.0), math.nextafter(1.0, 0.0), 2.0, math.nextaf
 WIDE = [float(k) for k in range(10)]
 GRIDS = [("small", SMALL, 35), ("half", HALF, 15), ("wide", WIDE, 20), ("signed", SIGNED, 10), ("tenths", TENTHS, 8), ("adjacent", ADJ, 12)]
 FGRID = [0.0, -0.0, 0.5, 1.0, 1.0, 2.0, 2.0, math.inf, 1e-9, 3.5, -1.0]
+# design vectors: base coordinates and offsets around the 1e-10 tolerance of Individual.__eq__
+VGRID = [0.0, 0.5, 1.0, -1.0, 0.1, 1e-10, 3.0, 0.30000000000000004]
+VDELTA = [0.0, 0.0, 1e-11, -1e-11, 5e-11, 9.9e-11, 1e-10, 1.1e-10, 2e-10, 1e-9]
 EPS_CHOICES = [[0.1, 0.1], [0.1, 0.1], [0.1], [0.5], [1.0], [2.0, 0.25], [3], [0.05, 10.0, 1.0], [1e-3], [0.25, 0.5, 1.0, 2.0], [1e6]]
 
 
@@ -82,11 +92,23 @@ def _artap():
     return Archive, Individual, ops
 
 
+def spec_vectors(spec):
+    """design vectors of the individuals; histories without "vec" (old corpus / replays) get pairwise distinct ones"""
+    v = spec.get("vec")
+    if v is None:
+        return [[float(i)] for i in range(len(spec["inds"]))]
+    return [[float(x) for x in w] for w in v]
+
+
 def make_individuals(art, spec):
     Archive, Individual, ops = art
     objs = []
+    vecs = spec_vectors(spec)
     for i, d in enumerate(spec["inds"]):
-        ind = Individual([float(i)])        # distinct vectors: Individual.__eq__ is identity within a case
+        if d.get("copy_of") is not None:
+            ind = objs[d["copy_of"]].copy()     # Individual.copy(): a new object with the same vector and nothing else
+        else:
+            ind = Individual(list(vecs[i]))
         if spec.get("flavour") == "evaluated":
             ind.costs = list(d["costs"])
             ind.features["feasible"] = d["feasible"]
@@ -105,6 +127,16 @@ def resolved(objs):
         cs = o.costs_signed
         out.append(([float(x) for x in cs[:-1]], cs[-1]))
     return out
+
+
+def resolved_vecs(objs):
+    """design vectors as the objects carry them (what Individual.__eq__ reads)"""
+    return [[float(x) for x in o.vector] for o in objs]
+
+
+def vec_eq(v, w):
+    """Individual.__eq__ on two vectors of the same length (statistics only; the model computes its own)"""
+    return all(abs(a - b) < 1e-10 for a, b in zip(v, w))
 
 
 def marker_int(mk):
@@ -304,7 +336,33 @@ def pick_grid(rng):
     return GRIDS[0][0], GRIDS[0][1]
 
 
-def gen_history(rng, nmax):
+def overlay_vectors(rng, spec):
+    """Design vectors drawn from 1-3 base points, so that several individuals of the history share a vector: exactly,
+    within / at / just outside the 1e-10 of Individual.__eq__; some individuals are Individual.copy() of an earlier one.
+    The costs were generated without looking at the vectors: equal vectors meet equal, dominated, dominating and
+    incomparable costs."""
+    inds = spec["inds"]
+    d = rng.choice([1, 2, 2, 3])
+    bases = [[rng.choice(VGRID) for _ in range(d)] for _ in range(rng.choice([1, 1, 2, 2, 3]))]
+    exact_only = rng.random() < 0.4
+    vecs = []
+    for i in range(len(inds)):
+        if i > 0 and rng.random() < 0.15:
+            j = rng.randrange(i)
+            inds[i]["copy_of"] = j
+            vecs.append(list(vecs[j]))
+            continue
+        v = list(rng.choice(bases))
+        if not exact_only:
+            for _ in range(rng.choice([0, 1, 1, 2])):
+                c = rng.randrange(d)
+                v[c] = v[c] + rng.choice(VDELTA)
+        vecs.append(v)
+    spec["vec"] = vecs
+    spec["shared_vectors"] = True
+
+
+def gen_history(rng, nmax, shared=False):
     m = rng.choice([1, 2, 2, 2, 3, 3, 4])
     comparator = "pareto" if rng.random() < 0.5 else "epsilon"
     gname, grid = pick_grid(rng)
@@ -383,8 +441,8 @@ def gen_history(rng, nmax):
         inds.append(new_ind(v, mk))
         ops_list.append(["add", len(inds) - 1])
     # a few removes inside the history
-    if rng.random() < 0.12 and len(ops_list) >= 2:
-        for _ in range(rng.choice([1, 2])):
+    if rng.random() < (0.45 if shared else 0.12) and len(ops_list) >= 2:
+        for _ in range(rng.choice([1, 2, 3] if shared else [1, 2])):
             ops_list.insert(rng.randint(1, len(ops_list)), ["remove", rng.randrange(len(inds))])
     # truncate, possibly followed by more additions
     if rng.random() < 0.75:
@@ -405,6 +463,8 @@ def gen_history(rng, nmax):
     spec["inds"] = inds
     spec["feat"] = [rng.choice(FGRID) for _ in inds]
     spec["ops"] = ops_list
+    if shared:
+        overlay_vectors(rng, spec)
     return spec
 
 
@@ -419,11 +479,12 @@ def enc_op(op):
     return "OpRemove %d" % op[1]
 
 
-def enc_case(spec, res, tapes):
+def enc_case(spec, res, tapes, vecs):
     eps = spec.get("eps")
-    return "{| c4_eps := %s; c4_inds := %s; c4_feat := %s; c4_tapes := %s; c4_ops := %s |}" % (
+    return "{| c4_eps := %s; c4_inds := %s; c4_vecs := %s; c4_feat := %s; c4_tapes := %s; c4_ops := %s |}" % (
         optl(eps, lambda e: ll([float(x) for x in e], fl)),
         ll(res, lambda r: pl(ll(r[0], fl), zl(marker_int(r[1])))),
+        ll(vecs, lambda v: ll(v, fl)),
         ll(spec["feat"], fl),
         ll(tapes, lambda t: ll(t, lambda ar: pl(fl(ar[0]), fl(ar[1])))),
         ll(spec["ops"], enc_op))
@@ -481,7 +542,15 @@ def run(ctx):
     st = {"pareto": 0, "epsilon": 0, "adds": 0, "inserted": 0, "rejected": 0, "evict1": 0, "evict2plus": 0,
           "evict_nonadjacent": 0, "evicted_then_rejected": 0, "truncates": 0, "truncate_dropping": 0, "removes": 0,
           "remove_hits": 0, "pow_calls": 0, "eps_oracle_skipped_unseparated": 0, "evaluated_flavour": 0,
-          "permutations_checked": 0, "impl_exceptions": 0, "max_archive": 0, "corpus_cases": 0}
+          "permutations_checked": 0, "impl_exceptions": 0, "max_archive": 0, "corpus_cases": 0,
+          # design vectors shared between the individuals of a history (Individual.__eq__ / __hash__ must play no part in add)
+          "shared_vector_histories": 0, "individuals_built_by_copy": 0, "same_object_offered_again": 0,
+          "inserted_next_to_eq_member": 0, "inserted_next_to_exactly_equal_vector_member": 0,
+          "inserted_next_to_eq_member_other_costs": 0, "rejected_with_eq_member_present": 0,
+          "evictions_with_earlier_eq_member_kept": 0, "evictions_with_later_eq_member_kept": 0,
+          "eq_but_not_exactly_equal_pairs": 0, "max_members_sharing_a_vector": 0,
+          "remove_of_non_member_hits_eq_member": 0, "remove_hits_earlier_eq_member_than_itself": 0,
+          "truncate_drops_member_with_eq_member_kept": 0}
     len_hist = {}
     shrunk = 0
 
@@ -521,6 +590,9 @@ def run(ctx):
             ctx.mismatches.append({"what": "implementation raised %r" % (e,), "correspondence": "c04", "case": jsonable(spec)})
             return
         tapes = ind_tapes(spec, res)
+        vecs = resolved_vecs(objs)
+        if vecs != spec_vectors(spec) or len(set(len(v) for v in vecs)) > 1:
+            problems.append("design vectors of the objects %r differ from the history's %r or have different lengths" % (vecs, spec_vectors(spec)))
         # every observed pow call must be an entry of the per-individual oracle tapes
         table = set((a.hex(), r.hex()) for t in tapes for (a, r) in t)
         for (x, y, r) in calls:
@@ -531,8 +603,9 @@ def run(ctx):
             ctx.mismatches.append({"what": "implementation observation inconsistent: " + pb, "correspondence": "c04", "case": jsonable(spec)})
         mt = jsonable(spec)
         mt["costs_signed"] = [list(p) + [mk] for (p, mk) in res]
+        mt["vectors"] = vecs
         mt["observed"] = [[ids, code] for ids, code in steps]
-        cases.append(enc_case(spec, res, tapes))
+        cases.append(enc_case(spec, res, tapes, vecs))
         expected.append(enc_obs(steps))
         meta.append(mt)
         # statistics
@@ -544,11 +617,37 @@ def run(ctx):
             st["corpus_cases"] += 1
         prev = []
         nontrivial = False
+        if spec.get("shared_vectors"):
+            st["shared_vector_histories"] += 1
+        st["individuals_built_by_copy"] += sum(1 for d in spec["inds"] if d.get("copy_of") is not None)
+        st["eq_but_not_exactly_equal_pairs"] += sum(1 for a in range(len(vecs)) for b in range(a) if vecs[a] != vecs[b] and vec_eq(vecs[a], vecs[b]))
+        css = [list(p) + [mk] for (p, mk) in res]
+        seen = set()
+
+        def eq(a, b):           # Individual.__eq__ between two different objects of the case
+            return a != b and vec_eq(vecs[a], vecs[b])
         for op, (ids, code) in zip(spec["ops"], steps):
             st["max_archive"] = max(st["max_archive"], len(ids))
+            for j in ids:
+                st["max_members_sharing_a_vector"] = max(st["max_members_sharing_a_vector"], sum(1 for q in ids if q == j or eq(q, j)))
             if op[0] == "add":
                 st["adds"] += 1
                 gone = [k for k, j in enumerate(prev) if j not in ids]
+                i = op[1]
+                if i in seen:
+                    st["same_object_offered_again"] += 1
+                seen.add(i)
+                if code == 1:
+                    others = [j for j in ids[:-1] if eq(j, i)]
+                    if others:
+                        st["inserted_next_to_eq_member"] += 1
+                        st["inserted_next_to_exactly_equal_vector_member"] += any(vecs[j] == vecs[i] for j in others)
+                        st["inserted_next_to_eq_member_other_costs"] += any(not same(css[j], css[i]) for j in others)
+                elif any(eq(j, i) for j in ids):
+                    st["rejected_with_eq_member_present"] += 1
+                for k in gone:
+                    st["evictions_with_earlier_eq_member_kept"] += any(eq(prev[q], prev[k]) and prev[q] in ids for q in range(k))
+                    st["evictions_with_later_eq_member_kept"] += any(eq(prev[q], prev[k]) and prev[q] in ids for q in range(k + 1, len(prev)))
                 if code == 1:
                     st["inserted"] += 1
                 else:
@@ -570,14 +669,20 @@ def run(ctx):
                 if len(ids) < len(prev):
                     st["truncate_dropping"] += 1
                     nontrivial = True
+                    st["truncate_drops_member_with_eq_member_kept"] += any(eq(a, b) for a in prev if a not in ids for b in ids)
             else:
                 st["removes"] += 1
                 st["remove_hits"] += code == 1
+                if code == 1 and op[1] not in prev:
+                    st["remove_of_non_member_hits_eq_member"] += 1
+                if code == 1 and op[1] in ids:
+                    st["remove_hits_earlier_eq_member_than_itself"] += 1
             prev = ids
         n_ops = len(spec["ops"])
         len_hist[n_ops] = len_hist.get(n_ops, 0) + 1
         ctx.count((spec["comparator"], tuple(spec.get("eps") or ()), tuple(tuple(p) + (int(mk),) for p, mk in res),
-                   tuple(tuple(o) for o in spec["ops"]), tuple(spec["feat"])), nontrivial=nontrivial)
+                   tuple(tuple(o) for o in spec["ops"]), tuple(spec["feat"]),
+                   tuple(tuple(v) for v in vecs) if spec.get("vec") is not None else None), nontrivial=nontrivial)
         if len(ctx.samples) < 4 and nontrivial and 4 <= n_ops <= 9:
             ctx.sample(mt)
         # direct oracle
@@ -614,7 +719,7 @@ def run(ctx):
     for spec in load_corpus():
         do_case(spec, from_corpus=True)
     for _ in range(n_cases):
-        do_case(gen_history(rng, nmax))
+        do_case(gen_history(rng, nmax, shared=rng.random() < 0.35))
 
     ctx.coq_compare("c04", HEADER, "c04_case", "c04_obs", "c04_run", "c04_obs_eqb", cases, expected, meta,
                     shard=ctx.pick(60, 150))
@@ -641,7 +746,7 @@ def replay(ctx, data):
         print("input:", json.dumps(jsonable(spec)))
         print("implementation:", steps, problems)
         print("oracle:", oracle(spec, res, steps))
-        out = ctx.coq_eval("c04_replay", HEADER, ["c04_run (%s)" % enc_case(spec, res, ind_tapes(spec, res))])
+        out = ctx.coq_eval("c04_replay", HEADER, ["c04_run (%s)" % enc_case(spec, res, ind_tapes(spec, res), resolved_vecs(objs))])
         print("model:", out[0] if out else "?")
     return 0
 
